@@ -155,6 +155,8 @@ func C20(c *Ctx) {
 	r.Rule("C20-e", "sibling agreement of the two front-ends on literal decoding: the value passed to ast.NewLitMatcher is, in bootstrap/parser.go and in the generated pigeon.go alike, the result of strconv.Unquote on the raw token text (helpers are resolved one level); class, any-matcher, identifier and code-block values are the raw token text in both")
 	r.Rule("C20-g", "code blocks are kept verbatim by both front-ends: ast.NewCodeBlock receives string(c.text) in the generated front-end and the token text in the bootstrap parser, and the bootstrap scanner's scanCode appends every rune it consumes (each s.read() is followed by s.tok.WriteRune(s.cur) before the next one; runes are consumed only through the primitive read)")
 	r.Rule("C20-h", "the hand-written bootstrap parser realises the binding strength of the grammars (C03-b): the method that builds choice nodes takes its operands from the one that builds action nodes, that one from sequence, label, prefix (& !), suffix (? * +) and primary in this order, and the primary level re-enters the choice level; levels are recognised by the ast constructors a method calls")
+	r.Rule("C20-i", "comments and the subset of the hand-written front-end: either no function of the hand-written parser names a comment token (a comment outside a code block is then rejected, i.e. outside the subset), or the hand-written scanner delimits comments as grammar/pigeon.peg does - the flag that arms the closing test of a multi-line comment is cleared by every rune other than '*', so the comment ends at the first */ and nowhere else")
+	bootstrapComments(c, "C20-i")
 	r.Rule("C20-f", "sibling agreement of the two front-end grammars: every rule defined both in grammar/bootstrap.peg and in grammar/pigeon.peg (compared through their generated literals, positions and actions aside) has the same expression, except the listed rules where pigeon.peg extends the bootstrap subset")
 	r.Rule("C20-d", "for artifacts generated without -optimize-grammar: every position{line,col,offset} in the grammar literal satisfies line = 1 + newlines before offset, col = 1 + runes since the last newline; rule names, rule references, character-class texts and `.` occur at their offsets in the .peg")
 
